@@ -45,7 +45,7 @@ TIERS = {
                            ((2, 1), [(2, 2), (3, 1)]),
                            ((3, 1), [(3, 1)]),
                            ((3, 0), [(3, 2), (4, 0)]),
-                           (("2opt", 4), [(2, 2), (3, 1)]), (("3opt", 3), [(2, 1), (3, 1)])],
+                           (("2opt", 4), [(2, 2), (3, 1)]), (("3opt", 2), [(2, 1), (3, 1)])],
                  "block": 250000},
 }
 
